@@ -445,11 +445,12 @@ func (r *Router) RunHandlers(ctx context.Context) error {
 		}
 
 		h.messagesCh = messages
-		h.started = true
-		close(h.startedCh)
-
+		// stopFn and stopped have to be set before Started() is closed:
+		// Stop() and Stopped() may be called as soon as it is
 		h.stopFn = cancel
 		h.stopped = make(chan struct{})
+		h.started = true
+		close(h.startedCh)
 
 		go func() {
 			defer cancel()
